@@ -65,7 +65,7 @@ def check_qr(A, q0, q1, fail, tag):
         fail('interm_len', f'{tag}: len(qinterm)={len(qi)}, Q.shape[1]={D}, R.shape[0]={R.shape[0]}')
         return
     nA = float(np.linalg.norm(A))
-    if not oracle.close(Q @ R, A, scale=max(1.0, nA), tol=1e-9):
+    if not oracle.close(Q @ R, A, scale=nA, tol=1e-9):            # relative to |A|: the factorization is scale invariant
         fail('product', f'{tag}: |QR-A| = {np.linalg.norm(Q @ R - A)}, |A| = {nA}')
     if not oracle.close(Q.conj().T @ Q, np.identity(D), scale=1.0, tol=1e-9):
         fail('isometry', f'{tag}: |Q^H Q - I| = {np.linalg.norm(Q.conj().T @ Q - np.identity(D))}')
@@ -108,5 +108,14 @@ def run_case(c):
             m, n = int(rng.integers(1, 25)), int(rng.integers(1, 25))
             q0, q1 = h.rand_charges(rng, m, n, c['style'])
             A = h.masked_matrix(rng, q0, q1, c['entries'])
-            check_qr(A, q0, q1, fail, f'r={r} shape={(m, n)} q0={q0.tolist()} q1={q1.tolist()}')
+            tag = f'r={r} shape={(m, n)} q0={q0.tolist()} q1={q1.tolist()}'
+            if A.dtype.kind in 'fc' and r % 3 == 2:
+                # "for every matrix": the same matrix at a very small / very large overall scale, or with one block scaled
+                f = float(10.0 ** rng.choice([-18, -12, -6, 6, 12]))
+                if r % 2 and m > 1:
+                    A = A.copy(); A[q0 == q0[int(rng.integers(m))], :] *= f
+                else:
+                    A = A * f
+                tag += f' scaled by {f:g}'
+            check_qr(A, q0, q1, fail, tag)
     return dict(failures=fails, nontrivial=nontrivial, key=json.dumps(c, sort_keys=True))
